@@ -159,6 +159,7 @@ theorem toInt64_sound (sem : StrSem) (s : Src) (n : Int) (hwf : wf s) (h : toInt
         injection h with h; subst h
         exact sem.parseInt_sound i j hp
   | big v => simp [toInt64] at h
+  | cplx re im mag => simp [toInt64] at h
   | nilptr => simp [toInt64] at h
   | other => simp [toInt64] at h
 
@@ -503,6 +504,60 @@ theorem roundMag_lt (n k : Nat) (h : n ≤ (2 ^ 24 - 1) * 2 ^ 104 * 2 ^ k) :
               rw [this, Nat.pow_add, Nat.mul_assoc]
           _ < 2 ^ 128 * 2 ^ (-u).toNat := Nat.mul_lt_mul_of_pos_right hM (Nat.pow_pos (by decide))
 
+/-- `rneDiv n s` is `n / 2^s` rounded to nearest, ties to even. -/
+theorem rneDiv_nearest (n s : Nat) (hs : 0 < s) :
+    2 * (rneDiv n s * 2 ^ s) ≤ 2 * n + 2 ^ s ∧ 2 * n ≤ 2 * (rneDiv n s * 2 ^ s) + 2 ^ s ∧
+    ((2 * (rneDiv n s * 2 ^ s) = 2 * n + 2 ^ s ∨ 2 * n = 2 * (rneDiv n s * 2 ^ s) + 2 ^ s) →
+      rneDiv n s % 2 = 0) := by
+  have h : rneDiv n s = if n % 2 ^ s > 2 ^ (s - 1) ∨ (n % 2 ^ s = 2 ^ (s - 1) ∧ n / 2 ^ s % 2 = 1)
+      then n / 2 ^ s + 1 else n / 2 ^ s := by
+    unfold rneDiv; rw [if_neg (by omega)]
+  exact rne_core n s hs _ h
+
+/-- **Correct rounding of `roundMag`** (Go's `float32(float64)`, `big.Int.Float64`,
+    `big.Float.Float32`): with `bits` the bit length of `n` (so `n / 2^k ∈ [2^(bits-1-k), 2^(bits-k))`)
+    and `2^u` the format's unit in the last place there (`u = max (bits-1-k-(p-1)) (-emin)`:
+    `p` significant bits, never finer than the smallest subnormal `2^-emin`), the result denotes
+    `q · 2^u` where `q` is `n / 2^(k+u)` rounded to nearest, ties to even; when `n / 2^k` is
+    already a multiple of `2^u` (`k + u ≤ 0`) it is returned unchanged. -/
+theorem roundMag_correct (p emin n k : Nat) (hn : n ≠ 0) :
+    (2 ^ n.log2 ≤ n ∧ n < 2 ^ (n.log2 + 1)) ∧
+    ∀ u : Int, u = max (((n.log2 : Int) + 1) - 1 - (k : Int) - ((p : Int) - 1)) (-(emin : Int)) →
+      ((k : Int) + u ≤ 0 → roundMag p emin n k = (n, k)) ∧
+      (0 < (k : Int) + u →
+        (roundMag p emin n k).1 * 2 ^ k =
+          rneDiv n ((k : Int) + u).toNat * 2 ^ ((k : Int) + u).toNat * 2 ^ (roundMag p emin n k).2) := by
+  refine ⟨⟨Nat.log2_self_le hn, Nat.lt_log2_self⟩, ?_⟩
+  intro u hu
+  constructor
+  · intro hs
+    unfold roundMag
+    rw [if_neg hn]
+    simp only []
+    rw [← hu, if_pos hs]
+  · intro hs
+    unfold roundMag
+    rw [if_neg hn]
+    simp only []
+    rw [← hu, if_neg (by omega)]
+    by_cases hu0 : u ≥ 0
+    · rw [if_pos hu0]
+      simp only [Nat.pow_zero, Nat.mul_one]
+      have : ((k : Int) + u).toNat = u.toNat + k := by omega
+      rw [this, Nat.pow_add, Nat.mul_assoc]
+    · rw [if_neg hu0]
+      simp only []
+      have e : ((k : Int) + u).toNat + (-u).toNat = k := by omega
+      rw [Nat.mul_assoc, ← Nat.pow_add, e]
+
+/-- `float32(float64)` on ties and at the subnormal edge (the cases the harness also runs):
+    1+2^-24 → 1 (tie to even), 1+3·2^-24 → 1+2^-22, 2^-150 → 0 (tie to even), 3·2^-150 → 2^-148,
+    2^128−2^103 (the overflow tie) → +Inf. -/
+example : roundF32 (.fin (2 ^ 24 + 1) 24) = .fin (2 ^ 23) 23 ∧ roundF32 (.fin (2 ^ 24 + 3) 24) = .fin (2 ^ 23 + 2) 23 ∧
+    roundF32 (.fin 1 150) = .fin 0 149 ∧ roundF32 (.fin 3 150) = .fin 2 149 ∧
+    roundF32 (.fin (2 ^ 128 - 2 ^ 103) 0) = .pinf ∧ roundF32 (.fin (2 ^ 128 - 2 ^ 103 - 1) 0) = .fin ((2 ^ 24 - 1) * 2 ^ 104) 0 := by
+  decide
+
 def F.finite : F → Prop
   | .fin _ _ => True
   | _ => False
@@ -529,6 +584,7 @@ def finiteSrc : Src → Prop
   | .f32 x => x ≠ .pinf ∧ x ≠ .ninf
   | .f64 x => x ≠ .pinf ∧ x ≠ .ninf
   | .str s => s.pFloat ≠ some .pinf ∧ s.pFloat ≠ some .ninf ∧ s.pFloat32 ≠ some .pinf ∧ s.pFloat32 ≠ some .ninf
+  | .cplx _ _ _ => False     -- complex sources are the known finding `complex-magnitude` (see below)
   | _ => True
 
 theorem stringToFloat_finite (b : Bool) (p : Option F) (r : F) (h : stringToFloat b p = .ok r)
@@ -564,6 +620,7 @@ theorem c17_float64_finite (s : Src) (r : F) (hfin : finiteSrc s) (h : toFloat64
     rw [toFloat64_big] at h
     obtain ⟨_, a, k, rfl⟩ := finOrOverflow_ok _ _ h
     trivial
+  | cplx re im mag => exact absurd hfin id
   | nilptr => cases h
   | other => cases h
 
@@ -604,6 +661,7 @@ theorem c17_f32_no_inf (s : Src) (r : F) (hfin : finiteSrc s) (h : toFloat32 s =
     · rw [if_neg hg] at h
       injection h with h; subst h
       exact roundFin_f32_finite _ 0 (by simpa using hg)
+  | cplx re im mag => exact absurd hfin id
   | nilptr => cases h
   | other => cases h
 
@@ -615,6 +673,7 @@ def float64Post (r : F) : Src → Prop
   | .bool b => r = .fin (boolInt b) 0
   | .str i => (i.blank = true ∧ r = .fin 0 0) ∨ (i.pFloat = some r ∧ r ≠ .nan)
   | .big v => r = bigToF64 v
+  | .cplx _ _ mag => r = mag      -- the magnitude: the known finding, not a value-preserving result
   | _ => False
 
 /-- **C17 (float targets, value).** What a successful `ToFloat64` returns: a float is returned
@@ -646,6 +705,7 @@ theorem c17_float64_sound (s : Src) (r : F) (h : toFloat64 s = .ok r) : float64P
   | big v =>
     rw [toFloat64_big] at h
     exact (finOrOverflow_ok _ _ h).1
+  | cplx re im mag => injection h with h; exact h.symm
   | nilptr => cases h
   | other => cases h
 
@@ -735,6 +795,7 @@ theorem c17_bigint_sound (sem : StrSem) (s : Src) (n : Int) (h : toBigInt s = .o
           | none => rw [h16] at h; cases h
         · rw [if_neg hx] at h; cases h
   | big v => cases h
+  | cplx re im mag => cases h
   | nilptr => cases h
   | other => cases h
 
@@ -773,6 +834,7 @@ theorem c17_bool_sound (s : Src) (b : Bool) (h : Coerce.toBool s = .ok b) : bool
     | none => rw [hb] at h; cases h
     | some b' => rw [hb] at h; injection h with h; subst h; rfl
   | big v => cases h
+  | cplx re im mag => cases h
   | nilptr => cases h
   | other => cases h
 
@@ -823,6 +885,27 @@ example : Coerce.exact (.int .i8) (.str seven) = none ∧
     parseCoerced (fun _ => []) (fun _ => []) (.int .i8) (.cmp .gte (.i 5)) (.str seven) = .ok (.int 7) ∧
     parseCoerced (fun _ => []) (fun _ => []) (.int .i8) (.cmp .gt (.i 7)) (.str seven) = .error .check := by
   refine ⟨rfl, ?_, ?_⟩ <;> decide
+
+/-! ## known finding `complex-magnitude` (full statement, partial theorem, witness) -/
+
+/-- The full statement for float targets: a successful `ToFloat64` of a source that denotes a
+    real number `x` returns `x` itself (for integers: correctly rounded — stated separately). -/
+def c17_float64_full : Prop :=
+  ∀ (s : Src) (x r : F), (s = .f64 x ∨ s = .f32 x ∨ ∃ im mag k, s = .cplx x (.fin 0 k) mag ∧ im = F.fin 0 k) →
+    toFloat64 s = .ok r → r = x
+
+/-- Partial: true for every float source (the excluded region is exactly the complex sources). -/
+theorem c17_float64_partial (x r : F) :
+    (toFloat64 (.f64 x) = .ok r → r = x) ∧ (toFloat64 (.f32 x) = .ok r → r = x) :=
+  ⟨fun h => (c17_float64_sound _ r h).1, fun h => (c17_float64_sound _ r h).1⟩
+
+/-- Witness: the full statement is false on complex sources — `complex(-3, 0)` (the code computes
+    `math.Sqrt(9 + 0) = 3`) comes out as `3`. -/
+theorem complex_magnitude_witness : ¬ c17_float64_full := by
+  intro h
+  have := h (.cplx (.fin (-3) 0) (.fin 0 0) (.fin 3 0)) (.fin (-3) 0) (.fin 3 0)
+    (Or.inr (Or.inr ⟨.fin 0 0, .fin 3 0, 0, rfl, rfl⟩)) rfl
+  revert this; decide
 
 /-! ## the pinned commit violates the property (witnesses) -/
 
